@@ -41,7 +41,7 @@ TIERS = {
     "thorough": dict(models=[dict(D=3, MaxDeg=3, MaxTerms=2, EmitDeg=0, EmitTerms=0, Regions="<-RegionsQuick"),
                              dict(D=3, MaxDeg=3, MaxTerms=1, EmitDeg=0, EmitTerms=0, Regions="<-RegionsAll")],
                      emits=[dict(D=3, MaxDeg=3, MaxTerms=1, EmitDeg=3, EmitTerms=1, Regions="<-RegionsAll"),
-                            dict(D=3, MaxDeg=2, MaxTerms=2, EmitDeg=2, EmitTerms=2, Regions="<-RegionsQuick")],
+                            dict(D=3, MaxDeg=2, MaxTerms=2, EmitDeg=2, EmitTerms=2, Regions="<-RegionsPairs")],
                      curved=True),
 }
 MODEL_INVARIANTS = ["ITypeOK", "Stokes", "Green", "Gauss", "GaussNative", "ReverseNegates", "SpeedCancels", "DivCurlZero"]
@@ -329,7 +329,9 @@ def replay_case(case):
             _run(out, "flux_across_surface", "flux3", comps3, reg, variant, False, case["flux3"],
                  [lambda f=f: an.flux_across_surface(field3, *f) for f in faces(reg, variant)])
         system, lims = curv_limits(reg)
-        if system == "cyl" or case.get("curved"):      # the spherical re-expression is slow (simplify): thorough only
+        # the spherical re-expression makes simplify slow and memory-hungry: thorough, fields of degree <= 1 only
+        small = len(case["terms"]) <= 1 and all(sum(t["e"]) <= 1 for t in case["terms"])
+        if system == "cyl" or (case.get("curved") and small):
             fieldc = make_curv_field(system, comps3)
             _run(out, "flux_across_volume_boundary", "flux3", comps3, reg, f"{system} system, re-expressed field", False,
                  case["flux3"], [lambda: an.flux_across_volume_boundary(fieldc, *lims)])
